@@ -47,6 +47,10 @@ type docSpec struct {
 	CharLevel bool
 	Features  map[string]bool
 	Total     int // N of "n of N"
+	// UserUnit (0 = absent): 1.1 or 1.2 keep every marginal baseline (<= 58 units
+	// from the edge) inside the 72 pt band in user units *and* in physical points,
+	// and the body (>= 100 units) outside both, so no case becomes borderline
+	UserUnit float64
 }
 
 func (d *docSpec) feat(f string) { d.Features[f] = true }
@@ -150,6 +154,10 @@ type genOpts struct {
 func genDoc(r *rand.Rand, o genOpts) *docSpec {
 	d := &docSpec{Features: map[string]bool{}}
 	tk := fw.NewTokens(r)
+	if uu := []float64{0, 0, 0, 0, 0, 0, 1.1, 1.2}[r.Intn(8)]; uu != 0 {
+		d.UserUnit = uu
+		d.feat("page.userunit")
+	}
 	switch k := r.Intn(100); {
 	case k < 7:
 		d.NPages = 1
@@ -509,7 +517,7 @@ func render(d *docSpec, r *rand.Rand) ([][]item, []byte) {
 				return bi && !bj
 			})
 		}
-		pages[p] = pdfw.SimplePage{W: d.W[p], H: d.H[p]}
+		pages[p] = pdfw.SimplePage{W: d.W[p], H: d.H[p], UserUnit: d.UserUnit}
 		for _, it := range its {
 			pages[p].Items = append(pages[p].Items, it.SimpleItem)
 		}
